@@ -21,16 +21,21 @@ META = dict(
          "untouched; removals only with a rotation and only of outdated backups; size rule: at most one record beyond "
          "the maximum. The abstract model RotateLog.tla (NoLoss, SizeBound, Retention) is model-checked and shown to "
          "produce only steps the relation admits.",
-    note="Rotation instants are not predicted (the statement fixes none). Fast tier: the real rules decide "
-         "ShallRotate/MarkRotated/OutdatedFiles, backup names come from a driver-supplied RotateRule wrapper in the real "
-         "format with synthetic increasing times; a few cases per run use the real BackupFilename with file starts "
-         "1.1 s apart (size rule, incl. the public megabyte constructor) or one simulated day change (daily rule). "
-         "Family 'config': the writers are built by newFileWriter(Config{Rotation,MaxSize MB,MaxBackups,KeepDays,Compress}) "
-         "(handleOptions + createOutput, the path of Setup with Mode file) for the size and the daily rule and judged "
-         "against the configured values. "
-         "Not covered: writes racing the post-rotation goroutine (every Write is followed by a barrier), records "
-         "still queued at Close (outside the statement), mixed gz/plain pre-existing backups, a run that spans "
-         "local midnight.",
+    note="Rotation instants are not predicted (the statement fixes none). Families: (1) NewLogger with the real rules "
+         "deciding ShallRotate/MarkRotated/OutdatedFiles behind a driver-supplied RotateRule wrapper (barrier record; backup "
+         "names in the real format with synthetic increasing times), plus cases with the real BackupFilename and file starts "
+         "1.1 s apart (size rule incl. the public megabyte constructor) or one simulated day change (daily rule); "
+         "(2) 'config': writers built by newFileWriter(Config{Rotation,MaxSize MB,MaxBackups,KeepDays,Compress}) = "
+         "handleOptions + createOutput, judged against the configured values; (3) 'public': Setup(Config{Mode file}) + "
+         "Info/Error/Slow/Stat/Severe + Close with package state (setupOnce, writer, options, disableLog/Stat, logLevel) "
+         "reset per case, one history per log file, every file observed after every step (a record must be in its own "
+         "file family; the logger's own diagnostics in the access log are skipped); (4) 'burst': several writes with no "
+         "barrier racing the post-rotation compress/clean-up goroutine, judged at quiescence by BurstFailed; 'closeq': "
+         "Close with records still queued - Close does not drain the queue (observed: a large share of queued records is "
+         "dropped although Write returned nil), the statement only covers records processed before Close, so only "
+         "'everything processed earlier is intact, queued ones that are present are in order' is claimed; (5) 'mixed': "
+         "pre-existing backups partly gz, partly plain. Not covered: a run that spans local midnight; bursts in "
+         "configurations where a backup created during the burst may itself be outdated; plain-text encoding and volume mode.",
     technique="TLA+ directory model + TLC-generated histories + TLC trace validation of the real logger's files",
     design="4/C19")
 
@@ -42,14 +47,14 @@ FINISH = dict(rule="histories = complete TLC enumeration (BFS over the history v
 
 def tla_cfg(c):
     return ('[rule |-> "%s", maxSize |-> %d, maxBackups |-> %d, days |-> %d, gzip |-> %s, delim |-> "%s", '
-            'names |-> "%s", pre |-> <<%s>>, precur |-> %d, via |-> "%s"]') % (
+            'names |-> "%s", pre |-> <<%s>>, precur |-> %d, via |-> "%s", pregz |-> "%s"]') % (
         c["rule"], c["maxSize"], c["maxBackups"], c["days"], "TRUE" if c["gzip"] else "FALSE", c.get("delim", "-"),
-        c.get("names", "counter"), ", ".join(str(a) for a in c.get("pre", [])), c.get("precur", 0), c.get("via", ""))
+        c.get("names", "counter"), ", ".join(str(a) for a in c.get("pre", [])), c.get("precur", 0), c.get("via", ""), c.get("pregz", ""))
 
 
-def C(rule, maxSize=0, maxBackups=0, days=0, gzip=False, pre=(), precur=0, names="counter", delim="-", via=""):
+def C(rule, maxSize=0, maxBackups=0, days=0, gzip=False, pre=(), precur=0, names="counter", delim="-", via="", pregz=""):
     return dict(rule=rule, maxSize=maxSize, maxBackups=maxBackups, days=days, gzip=gzip, pre=list(pre), precur=precur,
-                names=names, delim=delim, via=via)
+                names=names, delim=delim, via=via, pregz=pregz)
 
 
 # ------------------------------------------------------------------------------- model check
@@ -72,9 +77,10 @@ def mc(ctx):
 
 # ------------------------------------------------------------------------------- generate / record / validate
 
-def gen(ctx, name, confs, sizes, maxops, maxday, simulate=None):
+def gen(ctx, name, confs, sizes, maxops, maxday, simulate=None, fams=("",), burst=()):
     K = dict(GConfigs="{" + ", ".join(tla_cfg(c) for c in confs) + "}", GSizes="{%s}" % ", ".join(map(str, sizes)),
-             MaxOps=maxops, MaxDay=maxday)
+             MaxOps=maxops, MaxDay=maxday, GFams="{%s}" % ", ".join('"%s"' % f for f in fams),
+             GBurst="{%s}" % ", ".join("<<%s>>" % ", ".join(map(str, b)) for b in burst))
     cfg = core.render_cfg(spec="GSpec", constants=K, invariants=["Emit"])
     r = ctx.tlc("RotateLogGen", cfg, constants=K, name=name, simulate=simulate, depth=(maxops + 4 if simulate else None),
                 timeout=1200, workers=(1 if simulate else 6))
@@ -116,6 +122,8 @@ def brief(e):
         return "write #%s size %s -> %s" % (e["id"], e["size"], d)
     if e["ev"] == "close":
         return "close(err=%r) -> %s" % (e.get("err"), d)
+    if e["ev"] in ("burst", "closeq"):
+        return "%s %s -> %s" % (e["ev"], e.get("ids"), d)
     return "init %s -> %s" % (e.get("cfg"), d)
 
 
@@ -133,8 +141,8 @@ def describe(h, k, failed):
                 nrot += 1
     cls = "first-rotation" if nrot == 0 else "later"
     key = "C19:%s:%s:%s" % ("+".join(failed), ev["ev"], init["cfg"]["rule"])
-    msg = ("history #%s step %d rejected by the step relation, clauses %s (%s). Trace: %s  ||  REJECTED: %s" % (
-        init.get("h"), k, failed, cls, " ; ".join(brief(e) for e in evs[:k][-4:]), brief(ev)))
+    msg = ("history #%s%s step %d rejected by the step relation, clauses %s (%s). Trace: %s  ||  REJECTED: %s" % (
+        init.get("h"), (" file " + init["fam"]) if init.get("fam") else "", k, failed, cls, " ; ".join(brief(e) for e in evs[:k][-4:]), brief(ev)))
     return key, msg, init.get("h"), k
 
 
@@ -155,8 +163,30 @@ def plans(ctx):
     # MaxSize is in MB there, names are real -> size-triggered rotations 1.1 s apart
     def CF(rule, **kw):
         return C(rule, names="real", via="config", **kw)
+    # the public API: Setup(Config{Mode "file"}) + Info/Error/Slow/Stat/Severe + Close
+    def PB(rule, **kw):
+        return C(rule, names="real", via="public", **kw)
+    FAMS = ("info", "error", "severe", "slow", "stat")
+    # writes with no barrier in between (racing the post-rotation goroutine) and records queued at Close;
+    # only for configurations in which a backup created during the step cannot itself be outdated
+    BURSTS = [(65, 65, 65), (32, 32, 8, 65), (64, 8)]
+    burst_confs = [C("size", 64, gzip=True, pre=[73, 1], days=2), C("size", 64, maxBackups=4, pre=[73, 49, 1]),
+                   C("size", 64, maxBackups=4, gzip=True, days=2, pre=[73, 47], precur=20),
+                   C("daily", days=2, gzip=True, pre=[96, 24])]
+    mixed_confs = [C("size", 64, maxBackups=2, pre=[73, 49, 47, 1], pregz="mixed"),
+                   C("size", 64, maxBackups=2, gzip=True, pre=[73, 49, 47, 1], pregz="mixed"),
+                   C("size", 64, days=2, gzip=True, pre=[73, 49, 47, 1], pregz="mixed"),
+                   C("size", 64, days=2, maxBackups=1, pre=[73, 49, 47, 1], pregz="mixed"),
+                   C("daily", days=2, gzip=True, pre=[96, 72, 48, 24], pregz="mixed"),
+                   C("daily", days=2, pre=[96, 72, 48, 24], pregz="mixed")]
     P = []
     if ctx.quick:
+        P.append(dict(name="burst", confs=burst_confs, sizes=[32, 65], maxops=3, maxday=1, burst=BURSTS))
+        P.append(dict(name="mixed", confs=mixed_confs, sizes=[32, 65], maxops=4, maxday=2))
+        P.append(dict(name="pubdaily", confs=[PB("daily", days=2, gzip=True, pre=[96, 24]), PB("daily")],
+                      sizes=[40], maxops=4, maxday=1, fams=FAMS, pick=48))
+        P.append(dict(name="pubsize", confs=[PB("size", maxSize=MB, maxBackups=2, pre=[1])],
+                      sizes=[600 * 1024], maxops=4, maxday=0, fams=("info", "error"), pick=4))
         P.append(dict(name="config", confs=[CF("size", maxSize=MB, maxBackups=2, pre=[1]),
                                             CF("daily", days=2, gzip=True, pre=[96, 24])],
                       sizes=[600 * 1024], maxops=4, maxday=1))
@@ -179,6 +209,15 @@ def plans(ctx):
         P.append(dict(name="realsize", confs=real_size, sizes=[32, 65], maxops=4, maxday=0, pick=48))
         P.append(dict(name="realmb", confs=real_mb, sizes=[16, MB // 2, MB, MB + 1], maxops=4, maxday=0, pick=32))
         P.append(dict(name="realdaily", confs=real_daily, sizes=[8, 40], maxops=4, maxday=1))
+        P.append(dict(name="burst", confs=burst_confs, sizes=[32, 65], maxops=4, maxday=1, burst=BURSTS))
+        P.append(dict(name="burst5", confs=[C("size", 64, maxBackups=5, gzip=True, pre=[200, 73, 49, 1], delim="_"),
+                                            C("size", 64, gzip=True, days=2, pre=[73, 1]), C("size", 64, pre=[1], precur=20)],
+                      sizes=[8, 65], maxops=3, maxday=0, burst=[(65, 8, 65, 8, 65), (65, 65, 65, 65, 65)]))
+        P.append(dict(name="mixed", confs=mixed_confs, sizes=[32, 65], maxops=5, maxday=2))
+        P.append(dict(name="pubdaily", confs=[PB("daily", days=2, gzip=True, pre=[96, 24]), PB("daily"), PB("daily", days=1, pre=[48])],
+                      sizes=[40, 300], maxops=5, maxday=1, fams=FAMS, pick=600))
+        P.append(dict(name="pubsize", confs=[PB("size", maxSize=MB, maxBackups=mb, gzip=gz, pre=[1]) for mb in (2, 3) for gz in (False, True)],
+                      sizes=[300 * 1024, 600 * 1024], maxops=5, maxday=0, fams=("info", "error", "stat"), pick=32))
         P.append(dict(name="config", confs=[CF("size", maxSize=MB, maxBackups=mb, days=d, gzip=gz, pre=pre)
                                             for mb in (2, 3) for (d, gz, pre) in ((0, False, [1]), (2, True, [49, 1]))]
                                            + [CF("daily", days=2, gzip=True, pre=[96, 24]), CF("daily")],
@@ -193,7 +232,8 @@ def run(ctx):
     ctx.exhaustive = True
     tot = {}
     for p in plans(ctx):
-        cases = gen(ctx, p["name"], p["confs"], p["sizes"], p["maxops"], p["maxday"], simulate=p.get("simulate"))
+        cases = gen(ctx, p["name"], p["confs"], p["sizes"], p["maxops"], p["maxday"], simulate=p.get("simulate"),
+                    fams=p.get("fams", ("",)), burst=p.get("burst", ()))
         if not cases:
             raise core.Infra("generator %s produced no history" % p["name"])
         if p.get("pick") and len(cases) > p["pick"]:
@@ -206,17 +246,32 @@ def run(ctx):
         path, cnt = ctx.write_cases(p["name"] + ".ndjson", cases)
         ctx.samples += core.sample_of(cases, 1)
         hists, counters = record(ctx, binp, p["name"], path)
-        if len(hists) != cnt:
-            raise core.Infra("%s: %d histories generated, %d recorded" % (p["name"], cnt, len(hists)))
+        ncases = len({json.loads(h[0]).get("h") for h in hists})      # the public family records one history per log file
+        if ncases != cnt:
+            raise core.Infra("%s: %d histories generated, %d recorded" % (p["name"], cnt, ncases))
         for k, v in counters.items():
             tot[k] = tot.get(k, 0) + v
         tv.validate(ctx, p["name"], hists, tspec(), path)
+        q = m = 0
+        for h in hists:
+            for line in h:
+                if '"ev":"closeq"' in line:
+                    e = json.loads(line)
+                    have = set(e["cur"]) | {r for f in e["files"] for r in f["recs"]}
+                    q += len(e["ids"])
+                    m += sum(1 for i in e["ids"] if i not in have)
+        if q:
+            ctx.notes["queued_at_close.%s" % p["name"]] = dict(queued=q, dropped=m)
     # vacuity guards on what the drivers actually exercised
     if tot.get("rotations_seen", 0) == 0:
         raise core.Infra("vacuous run: the real logger never rotated")
     if tot.get("daychanges", 0) == 0:
         raise core.Infra("vacuous run: no simulated day change")
-    if tot.get("config_path_size", 0) == 0 or tot.get("config_path_daily", 0) == 0 or tot.get("config_path_rotations", 0) < 3:
+    for k in ("public_api_size", "public_api_daily", "public_rotations", "public_info", "public_error", "public_severe",
+              "public_slow", "public_stat", "burst_records", "closeq_records"):
+        if tot.get(k, 0) == 0:
+            raise core.Infra("vacuous run: %s = 0 (%s)" % (k, tot))
+    if tot.get("config_path_size", 0) == 0 or tot.get("config_path_daily", 0) == 0 or tot.get("config_rotations", 0) < 3:
         raise core.Infra("vacuous run: the logging-configuration path (size and daily) was not exercised: %s" % tot)
     ctx.notes["driver_totals"] = tot
     ctx.states = sum(t["distinct"] for t in ctx.tlc_runs)
